@@ -64,6 +64,10 @@ class Voc:
         self.sidx = F("sidx", V, V, I)            # witness index of membership
         self.sconcat = F("sconcat", V, V, V)
         self.distinct = F("nodup", V, B)       # list without two == elements
+        self.lsubset = F("lsubset", V, V, B)      # every member (python `in`) of list a is a member of list b
+        self.sk_lsub = F("sk_lsub", V, V, V)
+        self.lsubset_ex = F("lsubset_ex", V, V, V, B)   # ... except possibly the element x
+        self.sk_lsubx = F("sk_lsubx", V, V, V, V)
         # sets
         self.has = F("has", V, V, B)
         self.card = F("card", V, I)
@@ -220,6 +224,17 @@ class Voc:
             FA([s, e], self.distinct(self.sapp(s, e)) == z3.And(self.distinct(s), z3.Not(self.shas(s, e))), patterns=[self.distinct(self.sapp(s, e))]),
             FA([s, i, j], z3.Implies(z3.And(self.distinct(s), 0 <= i, i < j, j < self.slen(s)), z3.Not(self.pyeq(self.sat(s, i), self.sat(s, j)))),
                patterns=[z3.MultiPattern(self.distinct(s), self.sat(s, i), self.sat(s, j))]),
+        ]
+        A += [
+            FA([s, s2, x], z3.Implies(z3.And(self.lsubset(s, s2), self.shas(s, x)), self.shas(s2, x)),
+               patterns=[z3.MultiPattern(self.lsubset(s, s2), self.shas(s, x))]),
+            FA([s, s2], z3.Implies(z3.Not(self.lsubset(s, s2)), z3.And(self.shas(s, self.sk_lsub(s, s2)), z3.Not(self.shas(s2, self.sk_lsub(s, s2))))),
+               patterns=[self.lsubset(s, s2)]),
+            FA([s, s2, y, x], z3.Implies(z3.And(self.lsubset_ex(s, s2, y), self.shas(s, x), x != y), self.shas(s2, x)),
+               patterns=[z3.MultiPattern(self.lsubset_ex(s, s2, y), self.shas(s, x))]),
+            FA([s, s2, y], z3.Implies(z3.Not(self.lsubset_ex(s, s2, y)),
+                                      z3.And(self.shas(s, self.sk_lsubx(s, s2, y)), self.sk_lsubx(s, s2, y) != y, z3.Not(self.shas(s2, self.sk_lsubx(s, s2, y))))),
+               patterns=[self.lsubset_ex(s, s2, y)]),
         ]
         # sets
         A += [
